@@ -17,6 +17,866 @@ def bigendian(n, k):
     return [(k >> (n - 1 - j)) & 1 for j in range(n)]
 
 
+
+# =====================================================================================================================
+# HISTORIES on the SAME objects (seed round 3, C19c: a lazily built table / memo / stored handle that goes stale).
+# Every public operation of the property is evaluated, then something legal happens (an in-place edit of a tensor the
+# library returned earlier or the caller passed earlier, a parameter / network / limit / file change), then the SAME
+# operation is evaluated again on the SAME objects; the oracle after each step is the one used for a fresh object.
+# =====================================================================================================================
+KINDS = ("PositiveWaveFunction", "ComplexWaveFunction", "DensityMatrix")
+
+EDITS = ["mul_(2).sub_(1)", "sample(k, initial_state=t, overwrite=True)", "zero_()", "fill_(1)", "copy_(random bits)",
+         "reverse rows", "reverse sites", "flip one row", "swap two rows", "add_(0.5)", "t_()", "resize_(0)"]
+
+STATE_MUTS = ["reinitialize_parameters()", "rbm.initialize_parameters()", "rebind weights Parameter", ".data = new",
+              ".data.copy_()", "copy_ under no_grad", "load_state_dict", "save + load(path)", "short fit", "device setter",
+              "replace networks (same num_visible, other num_hidden)", "replace networks (other num_visible)"]
+
+FORMS = ["default", "size=", "positional", "device=", "device str"]
+
+
+def np_space(n):
+    return np.array(list(itertools.product([0, 1], repeat=n)), dtype=float).reshape(2 ** n, n)
+
+
+def bits_ok(t, n):
+    """t: what the library returned as the full space of n sites -> (ok, detail with the first wrong row)"""
+    want = np_space(n)
+    try:
+        got = np.asarray(t.detach().cpu().numpy(), dtype=float)
+    except Exception as e:
+        return False, "not a tensor: %r" % (e,)
+    if got.shape != want.shape:
+        return False, {"shape": list(got.shape), "want_shape": list(want.shape)}
+    if bool((got == want).all()):
+        return True, ""
+    bad = int(np.where((got != want).any(1))[0][0])
+    return False, {"first_bad_row": bad, "row": got[bad].tolist(), "want": want[bad].tolist()}
+
+
+def new_state(kind, n, nh=None, limit=None):
+    """a fresh state; limit: None = the stock class, else a subclass whose size limit is the settable attribute `limit`"""
+    from qucumber import nn_states
+    cls = getattr(nn_states, kind)
+    if limit is not None:
+        class Limited(cls):
+            @property
+            def max_size(self):
+                return self.__dict__.get("limit", 20)
+        Limited.__name__ = kind
+        cls = Limited
+    nh = int(nh or max(1, n))
+    st = cls(n, nh, nh, gpu=False) if kind == "DensityMatrix" else cls(n, nh, gpu=False)
+    if limit is not None:
+        st.__dict__["limit"] = int(limit)
+    return st
+
+
+def edit_tensor(ctx, name, t, what="bits"):
+    """in-place edit of a tensor the caller owns (the library returned it earlier).  Never raises: what the caller does to
+    their tensor is not under test, only what the library returns NEXT."""
+    import torch
+    from qucumber.nn_states import PositiveWaveFunction
+    rng = ctx.rng
+    try:
+        with torch.no_grad():
+            if name == "mul_(2).sub_(1)":
+                t.mul_(2).sub_(1)
+            elif name == "zero_()":
+                t.zero_()
+            elif name == "fill_(1)":
+                t.fill_(1)
+            elif name == "add_(0.5)":
+                t.add_(0.5) if t.is_floating_point() else t.add_(1)
+            elif name == "copy_(random bits)":
+                t.copy_(torch.tensor(rng.integers(0, 2, size=tuple(t.shape))).to(t.dtype))
+            elif name == "reverse rows":
+                t.copy_(t.flip(0).clone())
+            elif name == "reverse sites":
+                t.copy_(t.flip(-1).clone())
+            elif name == "flip one row":
+                k = int(rng.integers(0, t.shape[0]))
+                t[k] = 1 - t[k]
+            elif name == "swap two rows":
+                if t.shape[0] >= 2:
+                    i, j = [int(x) for x in rng.choice(t.shape[0], size=2, replace=False)]
+                    a = t[i].clone(); t[i] = t[j]; t[j] = a
+            elif name == "sample(k, initial_state=t, overwrite=True)":
+                if what == "bits" and t.dim() >= 1 and t.shape[-1] >= 1 and t.is_floating_point():
+                    ctx.torch_seed()
+                    aux = PositiveWaveFunction(int(t.shape[-1]), 2, gpu=False)
+                    with torch.no_grad():
+                        aux.rbm_am.visible_bias.add_(3.0)            # chains that move: almost every site ends at 1
+                    aux.sample(k=3, initial_state=t, overwrite=True)
+                else:
+                    t.neg_().add_(1)
+            elif name == "t_()":
+                t.t_() if t.dim() == 2 else t.unsqueeze_(0)
+            elif name == "resize_(0)":
+                t.resize_(0)
+            else:
+                raise ValueError(name)
+        ctx.count("edit:" + name)
+    except Exception:
+        ctx.count("edit not applicable:" + name)
+
+
+class Session:
+    """one state object + everything the library handed out for it + the buffers the caller passes again and again"""
+
+    def __init__(self, ctx, tag, kind, n, nh=None, limit=None):
+        self.ctx, self.tag, self.kind, self.n, self.limit = ctx, tag, kind, int(n), limit
+        self.nh = int(nh or max(1, n))
+        self.st = new_state(kind, n, self.nh, limit)
+        self.steps = []
+        self.live = []            # (label, tensor, what): returned earlier, kept by the caller
+        self.snap = {}            # id(tensor) -> clone taken when it was returned (only while the caller has not edited it)
+        self.explicit_only = False  # after the networks were replaced by ones of ANOTHER num_visible only explicit sizes are demanded
+        self.bufs = {}            # buffers the caller passes (same objects every time)
+
+    # ---- bookkeeping
+    def log(self, s):
+        self.steps.append(s)
+
+    def case(self, fn, **kw):
+        c = {"fn": fn, "history": self.tag, "state": self.kind, "n": self.n, "steps": list(self.steps)}
+        c.update(kw)
+        return c
+
+    def keep(self, label, t, what):
+        try:
+            snap = t.detach().clone()
+        except Exception:
+            return
+        self.live.append((label, t, what))
+        self.snap[id(t)] = snap               # what the library returned; dropped as soon as the caller edits the tensor
+        if len(self.live) > 12:
+            old = self.live.pop(0)
+            if not any(x[1] is old[1] for x in self.live):
+                self.snap.pop(id(old[1]), None)
+
+    def ev_untouched(self):
+        """values the library returned earlier and the caller has NOT touched since are still what they were (a later call must
+        not write into a table / workspace it handed out before)"""
+        import torch
+        ctx = self.ctx
+        c = self.case("earlier results (history)")
+        ctx.case(c)
+        ctx.count("history eval:earlier results untouched")
+        for label, t, what in self.live:
+            snap = self.snap.get(id(t))
+            if snap is None:
+                continue
+            try:
+                same = tuple(t.shape) == tuple(snap.shape) and bool(torch.equal(t.detach(), snap))
+            except Exception:
+                same = False
+            ctx.require("history: a result the library returned earlier, untouched by the caller, still holds what was returned",
+                        same, dict(c, result=label), {"now": t.detach().reshape(-1)[:8].tolist(), "returned": snap.reshape(-1)[:8].tolist()})
+
+    # ---- evaluations (each one oracle-checked)
+    def ev_space(self, size=None, form="default", fresh=False, probe=True):
+        import torch
+        from qucumber.utils import unitaries as U
+        ctx = self.ctx
+        st = new_state(self.kind, self.n, self.nh, self.limit) if fresh else self.st
+        n = self.n if size is None else int(size)
+        if size is None and self.explicit_only and not fresh:
+            size, form = n, "size="
+        if n > int(st.max_size):                 # beyond the CURRENT limit of this state: must be refused instead
+            return self.ev_guard(n, "default" if size is None else ("positional" if form == "positional" else "size="))
+        if size is None:
+            form = "default"
+        elif form == "default":
+            form = "size="
+        args, kw = (), {}
+        if form == "size=":
+            kw = {"size": n}
+        elif form == "positional":
+            args = (n,)
+        elif form == "device=":
+            kw = {"size": n, "device": torch.device("cpu")}
+        elif form == "device str":
+            kw = {"size": n, "device": "cpu"}
+        self.log("generate_hilbert_space(%s)%s" % ("" if form == "default" else "%s %d" % (form, n), " on a FRESH state of the same class" if fresh else ""))
+        c = self.case("generate_hilbert_space (history)", size=n, form=form)
+        ctx.case(c, nontrivial=(n >= 2 and len(self.steps) >= 2))
+        ctx.count("history eval:generate_hilbert_space/" + form)
+        ok, sp = ctx.call("generate_hilbert_space (history)", c, st.generate_hilbert_space, *args, **kw)
+        if not ok:
+            return None
+        good, detail = bits_ok(sp, n)
+        ctx.require("history: row k of the generated space == big-endian bits of k (itertools.product order)", good, c, detail)
+        if any(sp is t for _, t, _ in self.live):
+            ctx.count("history: the SAME tensor object was returned again (counted only)")
+        if good and probe:
+            ks = sorted(set([0, 2 ** n - 1, 2 ** (n - 1)] + [int(x) for x in ctx.rng.integers(0, 2 ** n, size=3)]))
+            for k in ks:
+                ok2, v = ctx.call("subspace_vector (history)", c, st.subspace_vector, k, size=n)
+                if ok2:
+                    vv = np.asarray(v.detach().cpu().numpy(), dtype=float).tolist()
+                    ctx.require("history: subspace_vector(k) == row k of the generated space == bits of k",
+                                vv == [float(b) for b in bigendian(n, k)], dict(c, k=k), vv)
+            ok3, idx = ctx.call("_convert_basis_element_to_index (history)", c, U._convert_basis_element_to_index, sp)
+            if ok3:
+                got = [int(round(float(x))) for x in np.asarray(idx.detach().cpu().numpy()).reshape(-1)]
+                ctx.require("history: index of row k of the generated space is k", got == list(range(2 ** n)), c, got[:8])
+        self.keep("space n=%d" % n, sp, "bits")
+        return sp
+
+    def ev_subvec(self, k=None, size=None):
+        ctx = self.ctx
+        n = self.n if size is None else int(size)
+        if size is None and self.explicit_only:
+            size = n
+        k = int(ctx.rng.integers(0, 2 ** n)) if k is None else int(k)
+        self.log("subspace_vector(%d%s)" % (k, "" if size is None else ", size=%d" % n))
+        c = self.case("subspace_vector (history)", k=k, size=n, default_size=(size is None))
+        ctx.case(c, nontrivial=(n >= 2 and 0 < k < 2 ** n - 1))
+        ctx.count("history eval:subspace_vector")
+        kw = {} if size is None else {"size": n}
+        ok, v = ctx.call("subspace_vector (history)", c, self.st.subspace_vector, k, **kw)
+        if not ok:
+            return None
+        try:
+            vv = np.asarray(v.detach().cpu().numpy(), dtype=float).tolist()
+        except Exception as e:
+            vv = repr(e)
+        ctx.require("history: subspace_vector(k) == big-endian bits of k", vv == [float(b) for b in bigendian(n, k)], c, vv)
+        self.keep("vector k=%d n=%d" % (k, n), v, "bits")
+        return v
+
+    def ev_guard(self, size=None, form="size="):
+        """a space beyond the state's CURRENT size limit must be refused (any exception)"""
+        ctx = self.ctx
+        lim = int(self.st.max_size)
+        size = lim + 1 if size is None else int(size)
+        if size <= lim or size > 14:
+            return
+        self.log("generate_hilbert_space(%s) beyond the limit %d" % (size if form != "default" else "", lim))
+        c = self.case("size guard (history)", size=size, max_size=lim, form=form)
+        ctx.case(c)
+        ctx.count("history eval:size guard")
+        try:
+            if form == "default":
+                self.st.generate_hilbert_space()
+            elif form == "positional":
+                self.st.generate_hilbert_space(size)
+            else:
+                self.st.generate_hilbert_space(size=size)
+            refused = False
+        except Exception:
+            refused = True
+        ctx.require("history: a space beyond the current size limit is refused", refused, c)
+
+    def ev_idx(self, width=None, rows=5, dtype="double"):
+        """_convert_basis_element_to_index on a buffer the caller passes again and again (refilled in place between calls)"""
+        import torch
+        from qucumber.utils import unitaries as U
+        ctx = self.ctx
+        w = self.n if width is None else int(width)
+        key = ("idx", w, rows, dtype)
+        content = ctx.rng.integers(0, 2, size=(rows, w))
+        tdt = torch.double if dtype == "double" else torch.float32
+        if key in self.bufs:
+            with torch.no_grad():
+                self.bufs[key].copy_(torch.tensor(content).to(tdt))
+            how = "the same buffer refilled with copy_"
+        else:
+            self.bufs[key] = torch.tensor(content).to(tdt)
+            how = "a new buffer"
+        buf = self.bufs[key]
+        self.log("_convert_basis_element_to_index(%dx%d %s, %s)" % (rows, w, dtype, how))
+        c = self.case("_convert_basis_element_to_index (history)", rows=content.tolist(), dtype=dtype, buffer=how)
+        ctx.case(c, nontrivial=(w >= 2))
+        ctx.count("history eval:idx/" + dtype)
+        want = [sum(int(b) << (w - 1 - j) for j, b in enumerate(r)) for r in content.tolist()]
+        if dtype != "double":
+            # another dtype is only an INTERVENING call (samples are doubles by the library's convention): counted, not required
+            try:
+                got = [int(round(float(x))) for x in U._convert_basis_element_to_index(buf).reshape(-1)]
+                ctx.count("history: float32 index %s" % ("right" if got == want else "differs (counted only)"))
+            except Exception:
+                ctx.count("history: float32 index raised (counted only)")
+            return None
+        for variant in ("batch", "single row", "3-d batch"):
+            arg = buf if variant == "batch" else (buf[rows - 1] if variant == "single row" else buf.reshape(1, rows, w))
+            ok, idx = ctx.call("_convert_basis_element_to_index (history)", dict(c, shape=variant), U._convert_basis_element_to_index, arg)
+            if not ok:
+                continue
+            got = [int(round(float(x))) for x in np.asarray(idx.detach().cpu().numpy()).reshape(-1)]
+            ctx.require("history: index of a basis vector == value of its big-endian bits", got == (want if variant != "single row" else want[-1:]),
+                        dict(c, shape=variant), got)
+            if variant == "batch":
+                self.keep("indices", idx, "index")
+        return None
+
+    def full_space(self, c):
+        """the library's table of the state's own size (an independent one if that is wrong - reported by ev_space)"""
+        import torch
+        kw = {"size": self.n} if self.explicit_only else {}
+        ok, sp = self.ctx.call("generate_hilbert_space (history)", c, self.st.generate_hilbert_space, **kw)
+        if not ok or not bits_ok(sp, self.n)[0]:
+            sp = torch.tensor(np_space(self.n), dtype=torch.double)
+        return sp
+
+    def vec(self, k):
+        return self.st.subspace_vector(k, size=self.n) if self.explicit_only else self.st.subspace_vector(k)
+
+    def cur_params(self):
+        """current parameters of the pure state as numpy (read at evaluation time)"""
+        out = []
+        for nm in self.st.networks:
+            r = getattr(self.st, nm)
+            out.append([r.weights.detach().numpy().astype(float), r.visible_bias.detach().numpy().astype(float), r.hidden_bias.detach().numpy().astype(float)])
+        return out
+
+    def ev_tables(self):
+        """position k of the psi / rho table the library produces for the full space belongs to basis state k (CURRENT parameters)"""
+        import torch
+        ctx = self.ctx
+        n, st = self.n, self.st
+        if n > 6:
+            return
+        self.log("psi/rho table of the full space")
+        c = self.case("array position (history)")
+        ctx.case(c, nontrivial=(n >= 2))
+        ctx.count("history eval:array position")
+        sp = self.full_space(c)
+        if self.kind != "DensityMatrix":
+            ok, tab = ctx.call("psi(space) (history)", c, st.psi, sp)
+            if not ok:
+                return
+            got = tab.detach().numpy()[0] + 1j * tab.detach().numpy()[1]
+            P = self.cur_params()
+            S = np_space(n)
+            import gen
+            want = np.exp(-0.5 * gen.np_eff_energy(*P[0], S)).astype(complex)
+            if len(P) > 1:
+                want = want * np.exp(1j * (-0.5 * gen.np_eff_energy(*P[1], S)))
+            scale = float(np.abs(want).max())
+            err = np.abs(got - want) if got.shape == want.shape else np.array([np.inf])
+            ctx.require("history: entry k of psi(space) is the amplitude of the big-endian basis state k (numpy, current parameters)",
+                        bool(err.max() <= 1e-9 * scale), c, {"max_err": float(err.max()), "k": int(err.argmax()), "scale": scale})
+            for k in sorted(set([0, 2 ** n - 1] + [int(x) for x in ctx.rng.integers(0, 2 ** n, size=2)])):
+                ok2, one = ctx.call("psi(subspace_vector(k)) (history)", c, lambda: st.psi(self.vec(k)))
+                if ok2:
+                    o = one.detach().numpy().reshape(2)
+                    ctx.require("history: psi(space)[:,k] == psi(subspace_vector(k))", abs((o[0] + 1j * o[1]) - want[k]) <= 1e-9 * scale, dict(c, k=k))
+            self.keep("psi table", tab, "table")
+        else:
+            ok, tab = ctx.call("rho(space, space) (history)", c, st.rho, sp, sp)
+            if not ok:
+                return
+            T = tab.detach().numpy()
+            scale = float(np.abs(T).max())
+            pairs = [(0, 2 ** n - 1), (2 ** n - 1, 0)] + [tuple(int(x) for x in ctx.rng.integers(0, 2 ** n, size=2)) for _ in range(4)]
+            for i, j in pairs:
+                ok2, one = ctx.call("rho(row i, row j) (history)", c, lambda: st.rho(self.vec(i), self.vec(j)))
+                if ok2:
+                    o = one.detach().numpy().reshape(2)
+                    ctx.require("history: rho(space,space)[:,i,j] == rho(subspace_vector(i), subspace_vector(j))",
+                                T.shape == (2, 2 ** n, 2 ** n) and bool(np.abs(T[:, i, j] - o).max() <= 1e-9 * scale), dict(c, i=i, j=j))
+            self.keep("rho table", tab, "table")
+
+    def ev_rotate(self, basis=None, rows=None):
+        """explicit psi / rho arrays in buffers the caller passes again (refilled in place): full rotation and the per-state fast
+        path (which enumerates the sub-space of the rotated sites internally) vs dense numpy Kronecker products of the CURRENT
+        unitaries"""
+        import torch
+        from functools import reduce
+        from qucumber.utils import unitaries as U
+        ctx = self.ctx
+        n, st = self.n, self.st
+        if n > 5:
+            return
+        if basis is None:
+            basis = "".join(ctx.rng.choice(list("XYZ"), size=n))
+        D = 2 ** n
+        vec = ctx.rng.normal(size=D) + 1j * ctx.rng.normal(size=D)
+        a = ctx.rng.normal(size=(D, D)) + 1j * ctx.rng.normal(size=(D, D)); h = a + a.conj().T
+        new = ("psi", n) not in self.bufs
+        if new:
+            self.bufs[("psi", n)] = torch.zeros(2, D, dtype=torch.double)
+            self.bufs[("rho", n)] = torch.zeros(2, D, D, dtype=torch.double)
+            self.bufs[("states", n)] = torch.zeros(3, n, dtype=torch.double)
+        arr, rarr, sts = self.bufs[("psi", n)], self.bufs[("rho", n)], self.bufs[("states", n)]
+        ks = [int(x) for x in ctx.rng.integers(0, D, size=3)] if rows is None else list(rows)
+        with torch.no_grad():
+            arr.copy_(torch.tensor(np.stack([vec.real, vec.imag])))
+            rarr.copy_(torch.tensor(np.stack([h.real, h.imag])))
+            sts.copy_(torch.tensor(np_space(n)[ks]))
+        ud = getattr(st, "unitary_dict", None) or U.create_dict()
+        try:
+            dense = reduce(np.kron, [ud[ch].detach().numpy()[0] + 1j * ud[ch].detach().numpy()[1] for ch in basis])
+        except Exception:
+            ctx.count("history: rotate skipped (dictionary unusable after the caller's edit)")
+            return
+        self.log("rotate %s (explicit arrays in %s)" % (basis, "new buffers" if new else "the same buffers refilled with copy_"))
+        c = self.case("rotation of explicit arrays (history)", basis=basis, states=ks)
+        ctx.case(c, nontrivial=(n >= 2 and basis != basis[::-1]))
+        ctx.count("history eval:rotate")
+        sp = self.full_space(c)
+        if self.kind != "DensityMatrix":
+            want = dense @ vec
+            tol = 1e-9 * float(np.abs(want).max())
+            ok, out = ctx.call("rotate_psi (history)", c, U.rotate_psi, st, basis, sp, psi=arr)
+            if ok:
+                got = out.detach().numpy()[0] + 1j * out.detach().numpy()[1]
+                ctx.require("history: rotate_psi of an explicit array == dense Kronecker product (site 0 leftmost) applied to it",
+                            got.shape == want.shape and bool(np.abs(got - want).max() <= tol), c)
+                self.keep("rotated psi", out, "table")
+            ok, out = ctx.call("rotate_psi_inner_prod (history)", c, U.rotate_psi_inner_prod, st, basis, sts, psi=arr)
+            if ok:
+                got = out.detach().numpy()[0] + 1j * out.detach().numpy()[1]
+                ctx.require("history: rotate_psi_inner_prod picks entry idx(state) of the dense rotation",
+                            got.shape == (len(ks),) and bool(np.abs(got - want[ks]).max() <= tol), c, {"got": str(got), "want": str(want[ks])})
+        else:
+            want = dense @ h @ dense.conj().T
+            tol = 1e-9 * float(np.abs(want).max())
+            ok, out = ctx.call("rotate_rho (history)", c, U.rotate_rho, st, basis, sp, rho=rarr)
+            if ok:
+                got = out.detach().numpy()[0] + 1j * out.detach().numpy()[1]
+                ctx.require("history: rotate_rho of an explicit array == dense Kronecker conjugation (site 0 leftmost)",
+                            got.shape == want.shape and bool(np.abs(got - want).max() <= tol), c)
+                self.keep("rotated rho", out, "table")
+            ok, out = ctx.call("rotate_rho_probs (history)", c, U.rotate_rho_probs, st, basis, sts, rho=rarr)
+            if ok:
+                got = out.detach().numpy()
+                w = np.real(np.diag(want))[ks]
+                ctx.require("history: rotate_rho_probs picks the diagonal entry idx(state) of the dense rotation",
+                            got.shape == (len(ks),) and bool(np.abs(got - w).max() <= tol), c, {"got": got.tolist(), "want": w.tolist()})
+
+    # ---- legal things that happen between two evaluations
+    def other_device(self, size=None):
+        """the same tables requested on ANOTHER device (the storage-less 'meta' device exists everywhere): not checked itself"""
+        n = self.n if size is None else int(size)
+        self.log("generate_hilbert_space / subspace_vector (size %d) on device 'meta'" % n)
+        for f in (lambda: self.st.generate_hilbert_space(size=n, device="meta"), lambda: self.st.subspace_vector(1, size=n, device="meta")):
+            try:
+                f()
+                self.ctx.count("intervening call on device meta")
+            except Exception:
+                self.ctx.count("intervening call on device meta raised (counted only)")
+
+    def edit_live(self, edit=None, which=None):
+        ctx = self.ctx
+        if not self.live:
+            return
+        if isinstance(which, str):              # the latest returned tensor with that label
+            hits = [i for i, (lab, _, _) in enumerate(self.live) if lab == which]
+            if not hits:
+                return
+            i = hits[-1]
+        else:
+            i = len(self.live) - 1 if which is None else which % len(self.live)
+        label, t, what = self.live[i]
+        edit = edit or str(ctx.rng.choice(EDITS))
+        self.log("caller edits the returned %s in place: %s" % (label, edit))
+        self.snap.pop(id(t), None)
+        edit_tensor(ctx, edit, t, what)
+
+    def edit_unitaries(self, how=None):
+        import torch
+        from qucumber.utils import unitaries as U
+        ctx = self.ctx
+        ud = getattr(self.st, "unitary_dict", None)
+        if not ud:
+            return
+        how = how or str(ctx.rng.choice(["entry edited in place", "key rebound", "dictionary replaced"]))
+        self.log("unitary_dict: " + how)
+        ctx.count("mutation:unitary_dict " + how)
+        th = float(ctx.rng.uniform(0.3, 1.2))
+        rot = torch.tensor([[[np.cos(th), -np.sin(th)], [np.sin(th), np.cos(th)]], [[0.0, 0.0], [0.0, 0.0]]], dtype=torch.double)
+        if how == "entry edited in place":
+            with torch.no_grad():
+                ud["X"].copy_(rot)
+        elif how == "key rebound":
+            ud["Y"] = ud["X"].clone()
+            ud["X"] = rot
+        else:
+            self.st.unitary_dict = U.create_dict(X=rot, Y=ud["X"].clone())
+
+    def mutate_state(self, name=None):
+        import torch
+        from torch import nn
+        from qucumber.rbm import BinaryRBM, PurificationRBM
+        ctx = self.ctx
+        st = self.st
+        name = name or str(ctx.rng.choice(STATE_MUTS))
+        assert name in STATE_MUTS, name
+        self.log("state: " + name)
+        ctx.torch_seed()
+        nets = [getattr(st, nm) for nm in st.networks]
+        try:
+            if name == "reinitialize_parameters()":
+                st.reinitialize_parameters()
+            elif name == "rbm.initialize_parameters()":
+                for r in nets:
+                    r.initialize_parameters()
+            elif name == "rebind weights Parameter":
+                for r in nets:
+                    for pn in ("weights", "weights_W", "weights_U"):
+                        if pn in r._parameters:
+                            setattr(r, pn, nn.Parameter(torch.randn_like(r._parameters[pn]), requires_grad=False))
+            elif name == ".data = new":
+                for r in nets:
+                    r.visible_bias.data = torch.randn(self.n, dtype=torch.double)
+            elif name == ".data.copy_()":
+                for r in nets:
+                    r.hidden_bias.data.copy_(torch.randn_like(r.hidden_bias))
+            elif name == "copy_ under no_grad":
+                with torch.no_grad():
+                    for r in nets:
+                        for pn, p in r.named_parameters():
+                            if not (pn == "aux_bias" and r is nets[-1] and len(nets) > 1):
+                                p.copy_(torch.randn_like(p))
+            elif name == "load_state_dict":
+                other = new_state(self.kind, self.n, self.nh)
+                for nm in st.networks:
+                    getattr(st, nm).load_state_dict(getattr(other, nm).state_dict())
+            elif name == "save + load(path)":
+                other = new_state(self.kind, self.n, self.nh)
+                path = os.path.join(ctx.scratch, "hist_state_%d.pt" % len(self.steps))
+                other.save(path)
+                st.load(path)
+            elif name == "short fit":
+                data = torch.tensor(ctx.rng.integers(0, 2, size=(8, self.n)), dtype=torch.double)
+                kw = dict(epochs=1, pos_batch_size=4, neg_batch_size=4, k=1, lr=0.05)
+                if self.kind != "PositiveWaveFunction":
+                    bases = np.array([["Z"] * self.n] * 8)
+                    bases[1::2, 0] = "X"
+                    kw["input_bases"] = bases
+                st.fit(data, **kw)
+            elif name == "device setter":
+                st.device = torch.device("cpu")
+            elif name == "replace networks (same num_visible, other num_hidden)":
+                self.nh = self.nh % 3 + 1
+                for nm in st.networks:
+                    if self.kind == "DensityMatrix":
+                        setattr(st, nm, PurificationRBM(self.n, self.nh, self.nh, gpu=False))
+                    else:
+                        setattr(st, nm, BinaryRBM(self.n, self.nh, gpu=False))
+            elif name == "replace networks (other num_visible)":
+                # the states copy num_visible into an attribute of their own at construction, so the DEFAULT sizes of the two
+                # enumeration functions disagree after this on the unchanged library (counted, not required; the documented use
+                # keeps the shapes): from here on only explicit sizes are demanded
+                self.n = self.n % 4 + 1
+                for nm in st.networks:
+                    if self.kind == "DensityMatrix":
+                        setattr(st, nm, PurificationRBM(self.n, self.nh, self.nh, gpu=False))
+                    else:
+                        setattr(st, nm, BinaryRBM(self.n, self.nh, gpu=False))
+                self.explicit_only = True
+                self.bufs = {}
+                try:
+                    w1 = int(st.generate_hilbert_space().shape[-1]); w2 = int(st.subspace_vector(0).shape[-1])
+                    ctx.count("default widths after replacement by another num_visible: space %s, vector %s (counted only)" % (
+                        "new" if w1 == self.n else "old", "new" if w2 == self.n else "old"))
+                except Exception:
+                    ctx.count("default forms raise after replacement by another num_visible (counted only)")
+            ctx.count("mutation:" + name)
+        except Exception as e:
+            ctx.count("mutation failed (not under test here):%s:%s" % (name, type(e).__name__))
+
+    def set_limit(self, lim):
+        self.log("size limit of the state := %d" % lim)
+        self.st.__dict__["limit"] = int(lim)
+        self.limit = int(lim)
+        self.ctx.count("mutation:size limit changed")
+
+
+def fixed_histories(ctx):
+    """fixed histories, run FIRST (never cut by a budget)"""
+    rng = ctx.rng
+    # (A) the returned space edited in place, then the same call again: every edit operator, every state type, default and
+    #     explicit sizes, the same state and a fresh state of the same class (a table shared between objects)
+    for i, edit in enumerate(EDITS):
+        kind = KINDS[i % 3]
+        n = 4 if i < 2 else (2 + i % 3)
+        s = Session(ctx, "A: returned space edited in place", kind, n)
+        s.ev_space()
+        s.edit_live(edit)
+        s.ev_space()
+        s.ev_space(size=n, form=FORMS[1 + i % 4])
+        s.ev_space(fresh=True)
+        s.ev_tables()
+        s.ev_untouched()
+        ctx.traces += 1
+    # a table requested on another device first / in between (a table remembered per size only)
+    for i, kind in enumerate(KINDS):
+        s = Session(ctx, "A': the same size on another device in between", kind, 3)
+        s.other_device(); s.ev_space(); s.ev_subvec(5)
+        s.other_device(4); s.ev_space(size=4); s.ev_subvec(9, size=4); s.ev_untouched()
+        ctx.traces += 1
+    # the two histories of the seed's demo on every state type (n = 4)
+    for kind in KINDS:
+        for edit in EDITS[:2]:
+            s = Session(ctx, "A: returned space edited in place", kind, 4)
+            sp = s.ev_space()
+            if edit.startswith("sample") and sp is not None:
+                s.log("state.sample(k=5, initial_state=space, overwrite=True)")
+                ctx.torch_seed()
+                s.snap.pop(id(sp), None)
+                try:
+                    s.st.sample(k=5, initial_state=sp, overwrite=True)
+                except Exception:
+                    ctx.count("mutation failed (not under test here):sample")
+            else:
+                s.edit_live(edit)
+            s.ev_space()
+            s.ev_rotate()
+            ctx.traces += 1
+    # (B) explicit sizes other than the state's own: tables of several sizes alive at once, one edited; the per-state fast
+    #     rotation path enumerates the sub-space of its rotated sites internally (size = number of non-Z sites)
+    for i, kind in enumerate(KINDS):
+        s = Session(ctx, "B: several sizes on one state", kind, 3)
+        s.ev_space(size=2); s.ev_space(size=5, form="positional"); s.ev_space(size=1)
+        s.edit_live("mul_(2).sub_(1)", which="space n=2")
+        s.edit_live("fill_(1)", which="space n=1")
+        s.ev_rotate("XYZ"[i:] + "XYZ"[:i], rows=[1, 6, 3])   # two rotated sites -> internal sub-space of size 2
+        s.ev_rotate("ZXZ", rows=[2, 5, 7])                   # one rotated site
+        s.ev_rotate("YXY", rows=[0, 7, 4])
+        s.ev_space(size=5); s.ev_space(size=2, form="device="); s.ev_space(size=1, form="device str"); s.ev_space()
+        s.edit_live("reverse rows", which="space n=5")
+        s.ev_space(size=5, form="size="); s.ev_subvec(size=5); s.ev_subvec()
+        s.ev_untouched()
+        ctx.traces += 1
+    # (C) every legal change of the state between two evaluations
+    for i, mut in enumerate(STATE_MUTS):
+        for j in range(2):
+            kind = KINDS[(i + j) % 3]
+            s = Session(ctx, "C: state changed between evaluations", kind, 2 + (i + j) % 2, nh=2)
+            s.ev_space(); s.ev_tables(); s.ev_rotate(); s.ev_subvec(); s.ev_idx()
+            s.mutate_state(mut)
+            s.ev_tables(); s.ev_space(); s.ev_rotate(); s.ev_subvec(); s.ev_idx()
+            s.edit_live("zero_()", which=int(rng.integers(0, 12)))
+            s.ev_tables(); s.ev_space(size=s.n)
+            s.ev_untouched()
+            ctx.traces += 1
+    # (D) the unitaries a rotation uses are the CURRENT ones (dictionary handed over by reference)
+    for kind in KINDS[1:]:
+        for how in ("entry edited in place", "key rebound", "dictionary replaced"):
+            s = Session(ctx, "D: unitary dictionary changed between rotations", kind, 2)
+            s.ev_rotate("XY", rows=[1, 2, 3]); s.ev_rotate("YX", rows=[0, 1, 2])
+            s.edit_unitaries(how)
+            s.ev_rotate("XY", rows=[1, 2, 3]); s.ev_rotate("YX", rows=[0, 1, 2]); s.ev_rotate("XZ", rows=[3, 2, 1])
+            s.ev_untouched()
+            ctx.traces += 1
+    # (E) the size limit: a refused request stays refused, does not poison later requests, follows the state's CURRENT
+    #     limit, and a table some OTHER state was allowed to build does not leak through
+    for i, kind in enumerate(KINDS):
+        s = Session(ctx, "E: size limit", kind, 3, limit=5)
+        s.ev_guard(6); s.ev_guard(6); s.ev_space(size=5); s.ev_guard(6, form="positional"); s.ev_space()
+        s.set_limit(4)
+        s.ev_guard(5); s.ev_space(size=4); s.ev_guard(5, form="positional")
+        s.set_limit(2)
+        s.ev_guard(3, form="default"); s.ev_guard(3); s.ev_space(size=2)
+        s.set_limit(6)
+        s.ev_space(size=6); s.ev_space(size=5); s.ev_space(); s.ev_guard(7)
+        big = Session(ctx, "E: size limit", kind, 3)                # stock limit: builds the 6- and 7-site tables
+        big.ev_space(size=6); big.ev_space(size=7, probe=False)
+        small = Session(ctx, "E: size limit", kind, 3, limit=5)
+        small.steps = list(big.steps) + ["(other state of the same base class, limit 5)"]
+        small.ev_guard(6); small.ev_guard(7); small.ev_space(size=5); small.ev_space()
+        ctx.traces += 2
+    # (F) single vectors and indices: returned values edited, passed buffers refilled, sizes / dtypes interleaved
+    for i, kind in enumerate(KINDS):
+        s = Session(ctx, "F: vectors and indices", kind, 3)
+        for k in (5, 2):
+            s.ev_subvec(k); s.edit_live(EDITS[(2 * i + k) % len(EDITS)]); s.ev_subvec(k)
+        s.ev_subvec(9, size=5); s.ev_subvec(5); s.ev_subvec(5, size=3); s.ev_subvec(9, size=4)
+        s.edit_live("mul_(2).sub_(1)"); s.ev_subvec(9, size=4); s.ev_subvec(9, size=5)
+        s.ev_idx(); s.ev_idx(); s.edit_live("zero_()"); s.ev_idx()
+        s.ev_idx(width=5); s.ev_idx(width=2); s.ev_idx(width=5, dtype="float32"); s.ev_idx(width=5); s.ev_idx(); s.ev_idx(width=2)
+        s.ev_idx(width=12, rows=3); s.ev_idx(width=12, rows=3); s.ev_idx(width=3, rows=3)
+        s.ev_untouched()
+        ctx.traces += 1
+
+
+def random_histories(ctx, count, tmax):
+    rng = ctx.rng
+    t0 = ctx.elapsed()
+    done = 0
+    for h in range(count):
+        if ctx.elapsed() - t0 > tmax:
+            ctx.count("random histories skipped (time budget)", count - h)
+            break
+        kind = KINDS[int(rng.integers(0, 3))]
+        n = int(rng.integers(1, 6))
+        limited = rng.random() < 0.3
+        s = Session(ctx, "R%d: random history" % h, kind, n, nh=int(rng.integers(1, 4)), limit=(n + int(rng.integers(0, 3))) if limited else None)
+        sizes = [n]
+        for step in range(int(rng.integers(5, 11))):
+            r = rng.random()
+            if r < 0.30:
+                size = None if rng.random() < 0.4 else int(rng.integers(1, min(9, s.limit if s.limit is not None else 6) + 1))
+                if size is not None and size not in sizes:
+                    sizes.append(size)
+                s.ev_space(size=size, form=str(rng.choice(FORMS[1:])), fresh=bool(rng.random() < 0.15))
+            elif r < 0.55:
+                s.edit_live(which=int(rng.integers(0, 12)))
+            elif r < 0.67:
+                s.mutate_state()
+            elif r < 0.75:
+                s.ev_subvec(size=None if rng.random() < 0.5 else int(rng.integers(1, 8)))
+            elif r < 0.81:
+                s.ev_tables()
+            elif r < 0.87:
+                s.ev_rotate()
+            elif r < 0.89:
+                s.edit_unitaries()
+            elif r < 0.91:
+                s.other_device(None if rng.random() < 0.5 else int(rng.integers(1, 6)))
+            elif r < 0.96:
+                s.ev_idx(width=None if rng.random() < 0.5 else int(rng.integers(1, 9)), dtype="double" if rng.random() < 0.8 else "float32")
+            elif s.limit is not None:
+                if rng.random() < 0.5:
+                    s.set_limit(min(10, max(1, s.limit + int(rng.integers(-2, 3)))))
+                s.ev_guard()
+            else:
+                s.ev_subvec()
+        for size in sizes:                      # every table that was ever handed out, once more (refused if beyond the limit now)
+            s.ev_space(size=size, form="size=")
+        s.ev_space()
+        s.ev_untouched()
+        done += 1
+        ctx.traces += 1
+    ctx.count("random histories run", done)
+
+
+def loader_histories(ctx, rounds):
+    """the same PATHS loaded again: after the caller edited what the loader returned, and after the files were rewritten
+    (other content; in half of the rounds with identical byte size and the old modification time restored)"""
+    import torch
+    from qucumber.utils.data import load_data, load_data_DM, extract_refbasis_samples
+    rng = ctx.rng
+    d = ctx.scratch
+
+    def content(N, n):
+        return {"samples": rng.integers(0, 2, size=(N, n)), "psi": rng.normal(size=(2 ** n, 2)), "bases": rng.choice(list("XYZ"), size=(N, n)),
+                "all": rng.choice(list("XYZ"), size=(2, n)), "re": rng.normal(size=(2 ** n, 2 ** n)), "im": rng.normal(size=(2 ** n, 2 ** n))}
+
+    def write(paths, C, keep_stat):
+        old = {k: os.stat(p) for k, p in paths.items()} if keep_stat else None
+        np.savetxt(paths["samples"], C["samples"], fmt="%d")
+        np.savetxt(paths["psi"], C["psi"], fmt="%+.18e")
+        np.savetxt(paths["bases"], C["bases"], fmt="%s")
+        np.savetxt(paths["all"], np.array(["".join(r) for r in C["all"]]), fmt="%s")
+        np.savetxt(paths["re"], C["re"], fmt="%+.18e")
+        np.savetxt(paths["im"], C["im"], fmt="%+.18e")
+        same = False
+        if keep_stat:
+            same = all(os.stat(p).st_size == old[k].st_size for k, p in paths.items())
+            for k, p in paths.items():
+                os.utime(p, ns=(old[k].st_atime_ns, old[k].st_mtime_ns))
+        return same
+
+    def f32(x):
+        return np.asarray(x).astype(np.float32).astype(np.float64)
+
+    def rows_of(b, N, n):
+        b = np.asarray(b)
+        return b.reshape(N, n).tolist() if b.size == N * n else b.tolist()
+
+    def verify(C, paths, case):
+        N, n = C["samples"].shape
+        ok, out = ctx.call("load_data (history)", case, load_data, paths["samples"], paths["psi"], paths["bases"], paths["all"])
+        res = []
+        if ok:
+            good = len(out) == 4
+            ctx.require("history: load_data returns one item per file", good, case, len(out))
+            if good:
+                s, p, b, ab = out
+                ctx.require("history: load_data samples as written in the file", tuple(s.shape) == (N, n) and bool((s.numpy() == C["samples"]).all()), case)
+                ctx.require("history: load_data target as written in the file (single precision)", tuple(p.shape) == (2, 2 ** n) and bool((p.numpy() == f32(C["psi"]).T).all()), case)
+                ctx.require("history: load_data bases as written in the file", rows_of(b, N, n) == C["bases"].tolist(), case)
+                ctx.require("history: load_data basis list as written in the file", [str(x) for x in np.atleast_1d(ab)] == ["".join(r) for r in C["all"]], case)
+                res += [s, p, b, ab]
+        ok, out = ctx.call("load_data_DM (history)", case, load_data_DM, paths["samples"], paths["re"], paths["im"], paths["bases"], paths["all"])
+        if ok:
+            good = len(out) == 4
+            ctx.require("history: load_data_DM returns one item per file", good, case, len(out))
+            if good:
+                s, m, b, ab = out
+                ctx.require("history: load_data_DM samples as written in the file", tuple(s.shape) == (N, n) and bool((s.numpy() == C["samples"]).all()), case)
+                ctx.require("history: load_data_DM target as written in the files (single precision)",
+                            tuple(m.shape) == (2, 2 ** n, 2 ** n) and bool((m[0].numpy() == f32(C["re"])).all() and (m[1].numpy() == f32(C["im"])).all()), case)
+                ctx.require("history: load_data_DM bases as written in the file", rows_of(b, N, n) == C["bases"].tolist(), case)
+                ctx.require("history: load_data_DM basis list as written in the file", [str(x) for x in np.atleast_1d(ab)] == ["".join(r) for r in C["all"]], case)
+                res += [s, m, b, ab]
+        return res
+
+    for t in range(rounds):
+        N, n = int(rng.integers(2, 7)), int(rng.integers(2, 4))
+        paths = {k: os.path.join(d, "hist%d_%s.txt" % (t, k)) for k in ("samples", "psi", "bases", "all", "re", "im")}
+        steps = []
+        def case():
+            c = {"fn": "loaders (history)", "round": t, "N": N, "n": n, "steps": list(steps)}
+            ctx.case(c); ctx.count("history eval:loaders")
+            return c
+        A = content(N, n)
+        write(paths, A, False)
+        steps.append("files written (content A), loaded")
+        got = verify(A, paths, case())
+        steps.append("caller edits every returned object in place")
+        for x in got:
+            try:
+                if isinstance(x, torch.Tensor):
+                    with torch.no_grad():
+                        x.mul_(-1).add_(3)
+                else:
+                    x[...] = "Q"
+            except Exception:
+                ctx.count("edit not applicable:loader result")
+        steps.append("same paths loaded again (files untouched)")
+        verify(A, paths, case())
+        keep = (t % 2 == 0)
+        N2 = N if keep else N + 1 + t % 2
+        B = content(N2, n)
+        same = write(paths, B, keep)
+        steps.append("files REWRITTEN at the same paths (content B, %d rows%s), loaded again" % (N2, ", same byte sizes, old mtime restored" if (keep and same) else ""))
+        ctx.count("loader rewrite:" + ("same size + mtime" if (keep and same) else "other size"))
+        N = N2
+        verify(B, paths, case())
+        # reference-basis extraction on the SAME objects: result edited, samples refilled with copy_, bases edited in place
+        samples = torch.tensor(B["samples"], dtype=torch.double)
+        bases = B["bases"].copy()
+        bases[0, :] = "Z"
+        esteps = []
+        def echeck():
+            c = {"fn": "extract_refbasis_samples (history)", "round": t, "bases": ["".join(r) for r in bases], "samples": samples.tolist(), "steps": list(esteps)}
+            ctx.case(c); ctx.count("history eval:extract_refbasis_samples")
+            cur = samples.clone()
+            ok, z = ctx.call("extract_refbasis_samples (history)", c, extract_refbasis_samples, samples, bases)
+            if ok:
+                keep_rows = [i for i in range(bases.shape[0]) if all(ch == "Z" for ch in bases[i])]
+                ctx.require("history: refbasis rows are exactly the all-Z rows of the CURRENT samples, in order",
+                            tuple(z.shape) == (len(keep_rows), n) and bool(torch.equal(z, cur[keep_rows])), c, z.tolist())
+            return z if ok else None
+        esteps.append("first call")
+        z = echeck()
+        if z is not None:
+            esteps.append("caller edits the returned rows in place (zero_)")
+            try:
+                z.zero_()
+            except Exception:
+                pass
+        esteps.append("same objects again")
+        echeck()
+        esteps.append("samples refilled with copy_")
+        samples.copy_(torch.tensor(rng.integers(0, 2, size=tuple(samples.shape)), dtype=torch.double) + 2.0 * torch.arange(samples.shape[0], dtype=torch.double)[:, None])
+        echeck()
+        esteps.append("bases edited in place (last row := Z, row 0 site 0 := X)")
+        bases[-1, :] = "Z"; bases[0, 0] = "X"
+        echeck()
+        esteps.append("bases all Z")
+        bases[:, :] = "Z"
+        echeck()
+        ctx.traces += 2
+
+
 def run(ctx):
     import torch
     from qucumber.nn_states import PositiveWaveFunction, ComplexWaveFunction, DensityMatrix
@@ -26,6 +886,9 @@ def run(ctx):
     m = ctx.get_model()
     rng = ctx.rng
     nmax = 12 if ctx.thorough else 10
+    # ---- histories on the same objects: the fixed ones FIRST (no budget applies to them)
+    fixed_histories(ctx)
+    loader_histories(ctx, 4)
     # ---- full spaces
     for n in range(1, nmax + 1):
         kind = [PositiveWaveFunction, ComplexWaveFunction, DensityMatrix][n % 3]
@@ -285,7 +1148,10 @@ def run(ctx):
         except Exception:
             rej = True
         ctx.require("real part without imaginary part is refused", rej, {"fn": "load_data_DM", "only_real": True})
-    ctx.traces = ctx.evaluations
+    # ---- histories from the seed (time-boxed; the fixed ones above always run)
+    loader_histories(ctx, 12 if ctx.thorough else 3)
+    random_histories(ctx, 400 if ctx.thorough else 60, 240.0 if ctx.thorough else 25.0)
+    ctx.traces += ctx.evaluations
 
 
 def replay(ctx, rec):
